@@ -24,11 +24,48 @@ def _op():
     return op
 
 
+class Split(Exception):
+    """a propagator call has several feasible paths under the case's preconditions (a value-dependent branch in the
+    code under test): the whole case is re-run once per path, with that path's condition added to the preconditions"""
+
+    def __init__(self, name, pcs):
+        Exception.__init__(self, name)
+        self.pcs = pcs
+
+
+def splitting(case):
+    """decorator: run `case`; when a call splits, re-run the case under each path condition (recursively; at most
+    MAX_LEAVES sub-cases - beyond that the remaining ones are reported as not decided)"""
+    MAX_LEAVES = 12
+
+    def wrapper(ctx, **kw):
+        todo = [()]
+        done = 0
+        while todo:
+            extra = todo.pop(0)
+            if done >= MAX_LEAVES:
+                ctx.inconclusive.append("%s: %d path combinations of value-dependent branches examined; further ones not decided" % (ctx.case, done))
+                break
+            try:
+                ctx.tag = ("split%d: " % done) if extra else ""
+                case(ctx, extra=tuple(extra), **kw)
+                done += 1
+            except Split as sp:
+                ctx.bounds["value_dependent_branches"] = ctx.bounds.get("value_dependent_branches", 0) + 1
+                for pc in sp.pcs:
+                    todo.append(tuple(extra) + tuple(pc))
+        ctx.tag = ""
+    wrapper.__name__ = case.__name__
+    wrapper.__doc__ = case.__doc__
+    return wrapper
+
+
 class Env:
     def __init__(self, ctx, N, pre, params):
         self.ctx = ctx
         self.N = N
         self.pre = list(pre)
+        self.tag = getattr(ctx, "tag", "")
         self.angles = AngleAxioms(ctx, pre, params)
         self.cut = FTCut(ctx, "cut", pre, rewrite=True, angles=self.angles)
         self.op = _op()
@@ -43,23 +80,22 @@ class Env:
         ncalls = len(self.cut.calls)
         paths, ex = core.run_paths(go, self.pre)
         self.ctx.explored(ex, len(paths))
-        good = [p for p in paths if p.exc is None]
         if len(paths) != 1:
-            # several feasible paths: keep the calls of the last executed one only when unambiguous
-            raise RuntimeError("%s: %d paths under the given preconditions (expected 1): %s" % (
-                name, len(paths), [str(p.pc) for p in paths]))
-        return good[0].out
+            raise Split(name, [list(p.pc) for p in paths])
+        if paths[0].exc is not None:
+            raise paths[0].exc
+        return paths[0].out
 
     def prove_eq(self, name, a, b, replay, names):
         a = numpy.asarray(a, dtype=object)
         b = numpy.asarray(b, dtype=object)
         if a.shape != b.shape:
-            self.ctx.prove(name + " (shape)", self.pre, z3.BoolVal(False), replay=replay, witness_terms=names, axioms=False)
+            self.ctx.prove(self.tag + name + " (shape)", self.pre, z3.BoolVal(False), replay=replay, witness_terms=names, axioms=False)
             return
         for i in numpy.ndindex(*a.shape):
             goal = conj(eqs(a[i], b[i]))
             goal, ax = self.angles.apply(goal)
-            v, _ = self.ctx.prove("%s [%s]" % (name, ",".join(map(str, i))), self.pre, goal, extra_axioms=ax, replay=replay,
+            v, _ = self.ctx.prove("%s%s [%s]" % (self.tag, name, ",".join(map(str, i))), self.pre, goal, extra_axioms=ax, replay=replay,
                                   witness_terms=names, timeout_ms=30000)
             if v != "unsat":
                 break
@@ -172,9 +208,10 @@ def _replay_zero(N, lam, d1, d2):
     return bad, dict(what="angularSpectrum(z=0) != input", rel_err=e)
 
 
-def case_group(ctx, N, history):
+@splitting
+def case_group(ctx, N, history, extra=()):
     lam, d1, z1, z2 = var("wvl"), var("d1"), var("z1"), var("z2")
-    pre = [z(lam.re) > 0, z(d1.re) > 0, z(z1.re) != 0, z(z2.re) != 0, z(z1.re) + z(z2.re) != 0]
+    pre = [z(lam.re) > 0, z(d1.re) > 0, z(z1.re) != 0, z(z2.re) != 0, z(z1.re) + z(z2.re) != 0] + list(extra)
     names = dict(wvl=lam, d1=d1, z1=z1, z2=z2)
     if history:
         names["d3"] = var("d3")
@@ -199,7 +236,7 @@ def case_group(ctx, N, history):
     back = env.run("angularSpectrum", a1, lam, d1, d1, -z1)
     rp2 = lambda m: harness.pristine_call(_replay_inverse, N, m(lam), m(d1), m(z1), (m(d3) if d3 is not None else None), m(z2))
     env.prove_eq("P(-z)oP(z) = id", back, U, rp2, names)
-    ctx.prove("guard: P(z2)oP(z1) = P(z1) is refutable", env.pre + [z(U[0, 0].re) != 0], all_eq(a2, a1), expect="sat", kind="sensitivity", timeout_ms=20000)
+    ctx.prove(env.tag + "guard: P(z2)oP(z1) = P(z1) is refutable", env.pre + [z(U[0, 0].re) != 0], all_eq(a2, a1), expect="sat", kind="sensitivity", timeout_ms=20000)
     ctx.bounds["solver_proved_angle_relations"] = env.angles.relations
     ctx.bounds["inverse_pair_rewrites"] = env.cut.rewrites
 
@@ -215,9 +252,10 @@ def _replay_inverse(N, lam, d1, z1, d3=None, z2=None):
     return bad, dict(what="P(-z)oP(z) != id", N=N, wvl=lam, d1=d1, z=z1, rel_err=e, d3=d3, z2=z2)
 
 
-def case_mag(ctx, N, history):
+@splitting
+def case_mag(ctx, N, history, extra=()):
     lam, d1, d2, zz = var("wvl"), var("d1"), var("d2"), var("z")
-    pre = [z(lam.re) > 0, z(d1.re) > 0, z(d2.re) > 0, z(zz.re) != 0, z(d1.re) != z(d2.re)]
+    pre = [z(lam.re) > 0, z(d1.re) > 0, z(d2.re) > 0, z(zz.re) != 0, z(d1.re) != z(d2.re)] + list(extra)
     names = dict(wvl=lam, d1=d1, d2=d2, z=zz)
     env = Env(ctx, N, pre, [lam, d1, d2, zz])
     U = symarr("U", (N, N), cplx=True)
@@ -234,9 +272,10 @@ def case_mag(ctx, N, history):
     ctx.bounds["inverse_pair_rewrites"] = env.cut.rewrites
 
 
-def case_lens(ctx, N):
+@splitting
+def case_lens(ctx, N, extra=()):
     lam, d1, f = var("wvl"), var("d1"), var("f")
-    pre = [z(lam.re) > 0, z(d1.re) > 0, z(f.re) != 0]
+    pre = [z(lam.re) > 0, z(d1.re) > 0, z(f.re) != 0] + list(extra)
     names = dict(wvl=lam, d1=d1, f=f)
     env = Env(ctx, N, pre, [lam, d1, f])
     U = symarr("U", (N, N), cplx=True)
@@ -258,13 +297,15 @@ def case_lens(ctx, N):
     ctx.bounds["solver_proved_angle_relations"] = env.angles.relations
 
 
-def case_two(ctx, N, unit):
+@splitting
+def case_two(ctx, N, unit, extra=()):
     lam, d1, d2, zz = var("wvl"), var("d1"), var("d2"), var("z")
     if unit:
         d2 = d1
         pre = [z(lam.re) > 0, z(d1.re) > 0, z(zz.re) != 0]
     else:
         pre = [z(lam.re) > 0, z(d1.re) > 0, z(d2.re) > 0, z(zz.re) != 0, z(d1.re) != z(d2.re)]
+    pre = pre + list(extra)
     names = dict(wvl=lam, d1=d1, d2=d2, z=zz)
     env = Env(ctx, N, pre, [lam, d1, d2, zz] if not unit else [lam, d1, zz])
     U = symarr("U", (N, N), cplx=True)
@@ -284,7 +325,7 @@ def case_two(ctx, N, unit):
     env.prove_eq("twoStepFresnel = oneStep(Dz2) o oneStep(Dz1)", a, b, rp, names)
     # the second one-step lands on spacing d2: lambda Dz2 / (N d1a) = +- d2
     out_sp = lam * Dz2 / (d1a * N)
-    ctx.prove("output spacing of the chained steps is d2 (up to sign)", env.pre, z(out_sp.re) * z(out_sp.re) == z(d2.re) * z(d2.re),
+    ctx.prove(env.tag + "output spacing of the chained steps is d2 (up to sign)", env.pre, z(out_sp.re) * z(out_sp.re) == z(d2.re) * z(d2.re),
               replay=rp, witness_terms=names)
     ctx.bounds["solver_proved_angle_relations"] = env.angles.relations
 
